@@ -33,15 +33,25 @@ type knownFile struct {
 
 func main() {
 	var (
-		prop    = flag.String("property", "", "property id (C01..C20) or 'all'")
-		tier    = flag.String("tier", "quick", "quick|thorough")
-		repo    = flag.String("repo", "/repo", "repository root")
-		verif   = flag.String("verif", "/verif", "verif root (evidence, known findings)")
-		replay  = flag.String("replay", "", "violation report to re-run")
-		list    = flag.Bool("list", false, "list obligations")
-		nowrite = flag.Bool("n", false, "do not write evidence")
+		prop      = flag.String("property", "", "property id (C01..C20) or 'all'")
+		tier      = flag.String("tier", "quick", "quick|thorough")
+		repo      = flag.String("repo", "/repo", "repository root")
+		verif     = flag.String("verif", "/verif", "verif root (evidence, known findings)")
+		replay    = flag.String("replay", "", "violation report to re-run")
+		list      = flag.Bool("list", false, "list obligations")
+		nowrite   = flag.Bool("n", false, "do not write evidence")
+		lockstats = flag.String("lockstats", "", "discovery aid: comma-separated repo packages whose mutex-owning structs are profiled")
 	)
 	flag.Parse()
+	if *lockstats != "" {
+		prog, err := kit.Load(*repo, nil, nil)
+		if err != nil {
+			fmt.Println(err)
+			os.Exit(2)
+		}
+		props.LockStats(prog, strings.Split(*lockstats, ","))
+		return
+	}
 	if *replay != "" {
 		data, err := os.ReadFile(*replay)
 		if err != nil {
